@@ -327,6 +327,43 @@ pub fn build_model_json(step: &Value) -> (Value, usize, Vec<String>) {
 }
 
 fn c14_step(step: &Value, probe: &str, tainted: &mut bool) -> Value {
+    let mut r = recompute(step);
+    let faulted_failed = r["i1"] == "panic" || r["i1"] == "fuel";
+    if r["class"] != "loaded" {
+        return r;
+    }
+    // I2 isolation: the very next healthy computation must be served and be right
+    if !probe.is_empty() {
+        let pv = probe_value(probe);
+        let reference = PROBE_REFS.with(|p| p.borrow().get(probe).cloned());
+        match (pv, reference) {
+            (Ok(v), Some(rf)) => {
+                if v == rf {
+                    r["probe"] = json!("equal");
+                } else {
+                    r["probe"] = json!("differs");
+                    *tainted = true;
+                }
+            }
+            (Err(p), _) => {
+                r["probe"] = json!("panic");
+                r["probe_site"] = site_json(&p);
+                *tainted = true;
+            }
+            (Ok(_), None) => {
+                r["probe"] = json!("no_reference");
+            }
+        }
+    }
+    if faulted_failed {
+        // whatever the probe said, do not reuse a process in which a computation unwound
+        *tainted = true;
+    }
+    r
+}
+
+/// One (edit, recompute) step: I1 totality and I3 finiteness of the recompute itself.
+pub fn recompute(step: &Value) -> Value {
     let (v, applied, kinds) = build_model_json(step);
     let txt = serde_json::to_string(&v).unwrap();
     let hash = format!("{:x}", md5::compute(txt.as_bytes()));
@@ -353,7 +390,6 @@ fn c14_step(step: &Value, probe: &str, tainted: &mut bool) -> Value {
     r["class"] = json!("loaded");
     // I1 totality
     let res = contain(|| model.energy_indicators());
-    let mut faulted_failed = false;
     match &res {
         Ok(ind) => {
             r["i1"] = json!("returned");
@@ -396,37 +432,9 @@ fn c14_step(step: &Value, probe: &str, tainted: &mut bool) -> Value {
             }
         }
         Err(p) => {
-            r["i1"] = json!("panic");
+            r["i1"] = json!(if p.raw_msg.contains("ctesim: fuel exhausted") { "fuel" } else { "panic" });
             r["i1_site"] = site_json(p);
-            faulted_failed = true;
         }
-    }
-    // I2 isolation: the very next healthy computation must be served and be right
-    if !probe.is_empty() {
-        let pv = probe_value(probe);
-        let reference = PROBE_REFS.with(|p| p.borrow().get(probe).cloned());
-        match (pv, reference) {
-            (Ok(v), Some(rf)) => {
-                if v == rf {
-                    r["probe"] = json!("equal");
-                } else {
-                    r["probe"] = json!("differs");
-                    *tainted = true;
-                }
-            }
-            (Err(p), _) => {
-                r["probe"] = json!("panic");
-                r["probe_site"] = site_json(&p);
-                *tainted = true;
-            }
-            (Ok(_), None) => {
-                r["probe"] = json!("no_reference");
-            }
-        }
-    }
-    if faulted_failed {
-        // whatever the probe said, do not reuse a process in which a computation unwound
-        *tainted = true;
     }
     r
 }
